@@ -1,22 +1,20 @@
-(* C17 - a cleared VM behaves like a fresh one; runs are deterministic and do not leak.  PARTIAL.
-   Statements only; proofs are in Cao.VmProofs, Cao.VmClearProofs, Cao.VmClearProofs2 (model Cao.Vm).
+(* C17 - a cleared VM behaves like a fresh one; runs are deterministic and do not leak.
+   Statements only; proofs are in Cao.VmProofs and Cao.VmClearProofs .. VmClearProofs4 (model Cao.Vm).
    Proved: what `clear` leaves is, on every component a later run can read, what a new Vm has (C17_clear_is_fresh);
    `run` installs its own budget; a completed run leaves no call frame, so repeated runs never fail for lack of
    frames (finding A-18, fixed); determinism.
-   run P (clear s) = run P fresh, PARTIAL (C17_run_after_clear_partial): `clear` leaves the old contents in the dead
-   slots of the value stack; the two runs are related by [Sim]: same height, same contents below a HIGH-WATER MARK
-   (every slot below it has been written by both Vms with the same value during the current run; it also bounds
-   every frame offset and every open-upvalue location), everything else equal. Proved for ALL programs (bytecode):
-   no ValueStack operation reads a slot at or above the high-water mark before writing it (C17_stack_ops_agree);
-   every instruction except the two that can enter a native function preserves the relation
-   (C17_step_after_clear_partial), and so do run_function, the dispatch loop, nested runs and `run` - PROVIDED
-   entering a native function preserves it ([natives_ok]: the seventeen native bodies of the menu with their typed
-   wrappers, min/max/sort with their callbacks). That hypothesis is the part that is NOT proved; it is claimed by the
-   correspondence run only (oracle code 2 of C17Check.v: every step that starts with `clear` is compared with the
-   same step on a new Vm). The allocator part (allocated = 0, threshold reset) is AllocProofs.clear_is_fresh on the
-   allocator model, and the counter oracle of C17Check.v on histories under a small memory limit. *)
+   run P (clear s) = run P fresh (C17_run_after_clear), for ALL programs (any bytecode), budgets, natives of the
+   menu and nesting depths: `clear` leaves the old contents in the dead slots of the value stack, so the two runs
+   are not equal as records; they are related by [Sim]: same height, same contents below a HIGH-WATER MARK (every
+   slot below it has been written by both Vms with the same value during the current run; it also bounds every
+   frame offset and every open-upvalue location), everything else equal. The heart is that no ValueStack operation
+   and no raw upvalue access reads a slot at or above the high-water mark before writing it (C17_stack_ops_agree,
+   C17_step_after_clear); [Sim] implies equality of everything an observer can read (C17_sim_readable).
+   NOT in the model, hence not proved here: the allocator (allocated = 0 and the collection threshold reset after
+   clear: AllocProofs.clear_is_fresh on the allocator model, and the counter / sweep oracles of C17Check.v on
+   histories under a small memory limit), and garbage collection during a run. *)
 From Coq Require Import NArith List Lia.
-From Cao Require Import Stacks Vm VmProofs VmClearProofs VmClearProofs2.
+From Cao Require Import Stacks Vm VmProofs VmClearProofs VmClearProofs2 VmClearProofs3 VmClearProofs4.
 Import ListNotations.
 
 Theorem C17_clear_is_fresh : forall s,
@@ -60,22 +58,30 @@ Theorem C17_stack_ops_agree : forall (V : Type) (vnil : V) hw (a b : vstack V) (
 Proof. exact vs_step_agree. Qed.
 Print Assumptions C17_stack_ops_agree.
 
-(* one instruction on two states related by Sim, for every program and every nested-run function [re]: every
-   instruction except CallNative (4) and CallFunction (11, whose callee may be a native function value) *)
-Theorem C17_step_after_clear_partial : forall F bld P re ip a b,
-  Sim a b ->
-  nth (N.to_nat ip) (p_code P) 255%N <> 4%N -> nth (N.to_nat ip) (p_code P) 255%N <> 11%N ->
-  sres_sim (step F bld P re ip a) (step F bld P re ip b).
-Proof. exact step_sim_partial. Qed.
-Print Assumptions C17_step_after_clear_partial.
+(* one instruction - any opcode, natives included - on two states related by Sim, given that nested runs
+   preserve the relation *)
+Theorem C17_step_after_clear : forall F bld P re,
+  (forall ip x y, Sim x y -> rres_sim (re ip x) (re ip y)) ->
+  forall ip a b, Sim a b -> sres_sim (step F bld P re ip a) (step F bld P re ip b).
+Proof. intros F bld P re Hre. exact (@step_sim F bld P re (@natives_ok_holds F P re Hre)). Qed.
+Print Assumptions C17_step_after_clear.
 
-(* run P (clear s) against run P on a new Vm (same host log / ghost counter / leftover budget, which are not VM
-   state): same outcome (error payload and trace included), final states related by Sim. MISSING: [natives_ok]. *)
-Theorem C17_run_after_clear_partial : forall F bld N P s,
-  natives_ok F P ->
+(* run P (clear s) against run P on a new Vm (with the same host log, ghost counter and leftover budget, which are
+   not VM state): the same outcome - error payload and trace included - and final states related by Sim *)
+Theorem C17_run_after_clear : forall F bld N P s,
   length (vdata (st_stack s)) = stack_size ->
   let fresh := mkState (vs_new VNil stack_size) [] [] [] None (st_log s) (st_count s) (st_rem s) in
   fst (run F bld N P (clear_state s)) = fst (run F bld N P fresh) /\
   Sim (snd (run F bld N P fresh)) (snd (run F bld N P (clear_state s))).
-Proof. exact run_after_clear_partial. Qed.
-Print Assumptions C17_run_after_clear_partial.
+Proof. exact run_after_clear. Qed.
+Print Assumptions C17_run_after_clear.
+
+(* two states related by Sim are equal in everything that can be read: frames, globals, heap, open upvalues, host
+   log, counters, the height and the live part of the value stack *)
+Theorem C17_sim_readable : forall x y, Sim x y ->
+  st_calls y = st_calls x /\ st_globals y = st_globals x /\ st_heap y = st_heap x /\ st_open y = st_open x /\
+  st_log y = st_log x /\ st_count y = st_count x /\ st_rem y = st_rem x /\
+  vcount (st_stack y) = vcount (st_stack x) /\
+  firstn (vcount (st_stack x)) (vdata (st_stack y)) = firstn (vcount (st_stack x)) (vdata (st_stack x)).
+Proof. exact Sim_readable. Qed.
+Print Assumptions C17_sim_readable.
